@@ -452,7 +452,7 @@ theorem ProcEq.right {st st' : ProcState} (h : st ≈ₚ st') : st' ≈ₚ st' :
 
 /-- the empty accumulator. -/
 theorem ProcEq.init : ({} : ProcState) ≈ₚ {} :=
-  ⟨⟨MEq.nil, MEq.nil, MEq.nil⟩, BalEq.nil, .nil, .nil⟩
+  ⟨⟨MEq.nil, MEq.nil, MEq.nil⟩, NEq.nil, .nil, .nil⟩
 
 theorem insertAliases_meq {s s' : Store} (h : StoreEq s s') (canonical : String) (as : List String) :
     ORel (· = ·) StoreEq (insertAliases s canonical as) (insertAliases s' canonical as) := by
@@ -621,7 +621,7 @@ theorem LRel.map_right_of_refl {β : Type} {R : β → β → Prop} (f : β → 
 theorem MEq.reverse {κ ν : Type} [DecidableEq κ] {m : AMap κ ν} (h : m ≈ₘ m) : m ≈ₘ m.reverse :=
   ⟨h.wf, (List.reverse_perm m).symm⟩
 
-theorem BalEq.reverse {b : Balance String String} (h : b ≈ᵦ b) :
+theorem NEq.reverse {b : Balance String String} (h : b ≈ᵦ b) :
     b ≈ᵦ (b.map fun kv => (kv.1, kv.2.reverse)).reverse := by
   have hw : AMap.WF (AMap.mapVals List.reverse b) := AMap.WF_mapVals _ _ h.wf
   have hp : (AMap.mapVals List.reverse b).Perm (b.map fun kv => (kv.1, kv.2.reverse)).reverse :=
@@ -643,7 +643,7 @@ def relayoutRev (st : ProcState) : ProcState :=
 
 theorem relayoutRev_meq {st : ProcState} (h : st ≈ₚ st) : st ≈ₚ relayoutRev st := by
   refine ⟨⟨MEq.reverse h.ctx.accounts, MEq.reverse h.ctx.commodities, MEq.reverse h.ctx.formatting⟩,
-    BalEq.reverse h.bal, ?_, ?_⟩
+    NEq.reverse h.bal, ?_, ?_⟩
   · refine LRel.map_right_of_refl _ (fun t ht => ⟨rfl, ?_⟩) _ h.txns
     exact LRel.map_right_of_refl (R := PostEq) (fun p => { p with amount := p.amount.reverse })
       (fun p hp => ⟨rfl, MEq.reverse hp.2.1, rfl⟩) _ ht.2
